@@ -2,6 +2,7 @@
 import os
 import sys
 import paths
+import slices
 import writeback
 from mir import callee_name
 from terms import ISet, tstr, pstr, is_const, const_val
@@ -87,16 +88,22 @@ def rule_header_once(ctx, cfg, r):
         r.fail(f.name, "header-site", "%d calls of header_from_flags in flush_block (expected 1)" % len(sites))
         return
     bb, t = sites[0]
-    guards = ic.dominating_atoms(c, f, bb)
-    zl = any(a[0] == "bin" and a[1] in ("Ne",) and a[2][0] == "bin" and a[2][1] == "BitAnd" and is_const(a[2][3]) and
-             const_val(a[2][3]) == ZL and s.single() == 1 for a, s in guards)
-    first = any(a[0] == "bin" and a[1] == "Eq" and is_const(a[3]) and const_val(a[3]) == 0 and s.single() == 1 and
-                a[2][0] == "place" and "block_index" in str(placename(f, a[2])) for a, s in guards)
-    if zl and first:
+    # every path that reaches the header emission has established (flags & WRITE_ZLIB_HEADER != 0) and block_index == 0 — decided on
+    # the paths' canonical relations, so the test may be spelled in place, through a local or through a small helper
+    ev0 = paths.Evaluator(c, effects=E, stop_blocks=[bb], max_paths=4000)
+    hdr_rows = [x for x in ev0.run(f) if x.outcome == ("stop", bb)]
+    bad = None
+    for x in hdr_rows:
+        zl = any(v == 1 and k[1] == ZL and paths.is_load_of(k[0], "flags", "ParamsOxide") for k, v in mask_tests(x).items())
+        first = any(rel == "Eq" and paths.is_load_of(lhs, "block_index", "ParamsOxide") and is_const(rhs) and const_val(rhs) == 0
+                    for lhs, rel, rhs in rels(x))
+        if not (zl and first):
+            bad = x
+    if hdr_rows and bad is None:
         r.ok(f.name, "header-guard", "header emitted only under flags & WRITE_ZLIB_HEADER ∧ block_index == 0", t.get("sp"))
     else:
         r.fail(f.name, "header-guard", "zlib header emission is not guarded by (zlib flag ∧ block_index == 0): %s"
-               % [(tstr(a), repr(s)) for a, s in guards], t.get("sp"))
+               % (bad.describe(8) if bad is not None else "no path reaches it"), t.get("sp"))
     # arguments: (params.flags, params.window_bits_max); both bytes emitted, 8 bits each, before any other output
     a0 = writeback.loaded_loc(E, f, t["args"][0])
     a1 = writeback.loaded_loc(E, f, t["args"][1])
@@ -266,6 +273,7 @@ def rule_adler_running(ctx, cfg, r):
                "deflate::core::CompressorOxide::with_params", "<deflate::core::CompressorOxide as core::default::Default>::default"}
     extra = [n for n in names if n not in allowed and "Clone" not in n and not n.startswith("deflate::compress_to_vec")
              and not n.startswith("deflate::core::CompressorOxide::")]
+    extra = [n for n in extra if not helper_only_called_from(c, n, allowed)]
     if extra:
         r.fail("<crate>", "adler-writers", "params.adler32 may be written by unexpected functions: %s" % extra)
     else:
@@ -278,15 +286,19 @@ def rule_adler_running(ctx, cfg, r):
         upd = calls_named(row, "shared::update_adler32")
         succ = [e for e in work if vs(row, call_res(e)).single() == 1]
         flagbit = None
-        for a, s in row.atoms:
-            if a[0] == "bin" and a[1] == "Ne" and a[2][0] == "bin" and a[2][1] == "BitAnd" and is_const(a[2][3]) and const_val(a[2][3]) == (ZL | CA):
-                flagbit = s.single()
+        for lhs, rel, rhs in rels(row):
+            # `flags & (ZLIB | ADLER) != 0` however it is tested (`!= 0`, early return on `== 0`, …)
+            if rel in ("Ne", "Eq") and lhs[0] == "bin" and lhs[1] == "BitAnd" and is_const(lhs[3]) and const_val(lhs[3]) == (ZL | CA) and \
+                    is_const(rhs) and const_val(rhs) == 0:
+                flagbit = 1 if rel == "Ne" else 0
         some = any(a[0] == "discr" and paths.is_load_of(a[1], "in_buf", "CallbackOxide") and s.single() == 1 for a, s in row.atoms)
         if upd:
             n += 1
             e = upd[0]
-            okk = paths.is_load_of(e[2][0], "adler32", "ParamsOxide") and \
-                paths.term_contains(e[2][1], lambda y: y[0] == "agg" and y[1].endswith("RangeTo") and paths.is_load_of(y[4][0], "src_pos", "ParamsOxide") and y[4][0][2] != 0)
+            reg = slices.region(e[2][1], store=row.store)
+            okk = paths.is_load_of(e[2][0], "adler32", "ParamsOxide") and reg is not None and reg.off == (0, {}) and \
+                paths.term_contains(reg.root, lambda y: y[0] == "fld" and y[2] == "in_buf") and reg.length[0] == 0 and len(reg.length[1]) == 1 and \
+                all(co == 1 and paths.is_load_of(q, "src_pos", "ParamsOxide") and q[2] != 0 for q, co in reg.length[1].items())
             st = store_to_field(row, "adler32", "ParamsOxide")
             okk = okk and st and st[-1][2] == call_res(e) and succ and flagbit == 1
             if okk:
@@ -299,6 +311,34 @@ def rule_adler_running(ctx, cfg, r):
         r.fail(f.name, "adler-update", "no path of compress_inner updates params.adler32")
 
 
+def rule_adler_restart(ctx, cfg, r):
+    """R09.9: a compressor that is reset starts its next stream's checksum at 1: params.adler32 is assigned MZ_ADLER32_INIT on every path
+    of CompressorOxide::reset (whatever the flags), and by the constructors."""
+    c = ctx.crate(cfg)
+    E = ctx.effects(cfg)
+    INIT = c.const_int("MZ_ADLER32_INIT")
+    loc = (c.adt("deflate::core::ParamsOxide")["path"], "adler32")
+    rs = c.fn("deflate::core::CompressorOxide::reset")
+    ctx.touched(rs)
+    if loc in set(E.lookup(rs.id)["MW"]):
+        r.ok(rs.name, "adler-restart/must", "params.adler32 is assigned on every path of CompressorOxide::reset")
+    else:
+        r.fail(rs.name, "adler-restart/must", "CompressorOxide::reset can return without re-initialising params.adler32: the next stream's zlib trailer "
+               "would continue the previous stream's checksum")
+    pr = c.fn("deflate::core::ParamsOxide::reset")
+    okv = True
+    n = 0
+    for x in paths.Evaluator(c, effects=E).run(pr):
+        for e in store_to_field(x, "adler32", "ParamsOxide"):
+            n += 1
+            if not (is_const(e[2]) and const_val(e[2]) == INIT):
+                okv = False
+    if okv and n:
+        r.ok(pr.name, "adler-restart/value", "reset assigns MZ_ADLER32_INIT")
+    else:
+        r.fail(pr.name, "adler-restart/value", "ParamsOxide::reset does not assign MZ_ADLER32_INIT to adler32 (stores seen: %d)" % n)
+
+
 def run(ctx):
     cfg = "H1"
     r1 = ctx.rule("R09.1", "every reachable compressor configuration yields an RFC 1950 valid header", floor=2, config=cfg)
@@ -309,6 +349,8 @@ def run(ctx):
     rule_trailer(ctx, cfg, r3)
     r6 = ctx.rule("R09.8", "running Adler-32 of the compressor covers exactly the consumed input", floor=2, config=cfg)
     rule_adler_running(ctx, cfg, r6)
+    r9 = ctx.rule("R09.9", "a reset compressor starts the next stream's Adler-32 at 1 on every path, whatever the flags", floor=2, config=cfg)
+    rule_adler_restart(ctx, cfg, r9)
     r4 = ctx.rule("R09.4", "decoder epilogue: Done in zlib mode only if the trailer equals the Adler-32 of the output; otherwise Adler32Mismatch", floor=4, config=cfg)
     ic.rule_adler_epilogue(ctx, cfg, r4)
     r7 = ctx.rule("R09.7", "decoder trailer read: four bytes, counted across calls, shifted in most-significant first", floor=4, config=cfg)
